@@ -108,7 +108,7 @@ class swap_random:
 
 
 # ------------------------------------------------------------------ graphs ----
-LABEL_KINDS = ('perm', 'str', 'tuple', 'mixed')
+LABEL_KINDS = ('perm', 'str', 'tuple', 'mixed', 'zero')
 
 
 def make_labels(rng, n, kind=None):
@@ -119,6 +119,9 @@ def make_labels(rng, n, kind=None):
         base = ['v%s' % chr(97 + i) for i in range(n)]
     elif kind == 'tuple':
         base = [('t', i * 7 % 11, i) for i in range(n)]
+    elif kind == 'zero':
+        # falsy labels: the integer 0 and the empty string are nodes like any other (a truthiness test on a node is a defect)
+        base = ([0, ''] + rng.sample(range(3, 3 + 3 * n), n))[:n]
     else:
         base = [(('m', i) if i % 3 == 0 else 'w%d' % i if i % 3 == 1 else 100 + i) for i in range(n)]
     base = list(base); rng.shuffle(base)
